@@ -18,6 +18,7 @@ var c17Specs = []famSpec{
 	{Family: "rectilinear", FreshQ: 2500, FreshT: 80000},
 	{Family: "rand-mid", Pool: 40000, PoolQ: 2000},
 	{Family: "rand-wide", FreshQ: 2500, FreshT: 100000},
+	{Family: "nested-small", Pool: 20000, PoolQ: 1000},
 	{Family: "nested", FreshQ: 1000, FreshT: 30000},
 	{Family: "xproc-a", FreshQ: 400, FreshT: 5000},
 	{Family: "xproc-b", FreshQ: 400, FreshT: 5000},
@@ -281,7 +282,11 @@ func c17Run(ctx *run.Ctx, id run.CaseID) {
 				w, on := oracle.Winding(sol, q)
 				ctx.Count("points_compared", 1)
 				if (w != 0 || on) != baseIn[i] {
-					ctx.Fail(digest, "spelling/"+s.name+"/"+tag, "", fmt.Sprintf("region differs at %s (mapped %s): base inside=%v, spelling winding=%d; base solution=%v spelling input subject=%v clip=%v solution=%v",
+					class := discardClassPoint(subj, clp, ct, fr, p)
+					if class == "" {
+						class = discardClassPoint(s.s, s.c, s.ct, s.fr, q)
+					}
+					ctx.Fail(digest, "spelling/"+s.name+"/"+tag, class, fmt.Sprintf("region differs at %s (mapped %s): base inside=%v, spelling winding=%d; base solution=%v spelling input subject=%v clip=%v solution=%v",
 						fmtPt(p), fmtPt(q), baseIn[i], w, base, s.s, s.c, sol), in)
 					break
 				}
